@@ -7,11 +7,16 @@ use serde_json::{json, Value};
 use crate::engine::{self, Ctx, Part};
 
 pub mod c01;
+pub mod c02;
 pub mod c03;
 pub mod c04;
 pub mod c05;
 pub mod c07;
 pub mod c08;
+pub mod c09;
+pub mod c10;
+pub mod c11;
+pub mod c12;
 pub mod c15;
 pub mod c16;
 pub mod c19;
@@ -28,11 +33,16 @@ pub struct Check {
 fn build(ctx: &Ctx) -> Option<Check> {
     Some(match ctx.property.as_str() {
         "C01" => c01::check(ctx),
+        "C02" => c02::check(ctx),
         "C03" => c03::check(ctx),
         "C04" => c04::check(ctx),
         "C05" => c05::check(ctx),
         "C07" => c07::check(ctx),
         "C08" => c08::check(ctx),
+        "C09" => c09::check(ctx),
+        "C10" => c10::check(ctx),
+        "C11" => c11::check(ctx),
+        "C12" => c12::check(ctx),
         "C15" => c15::check(ctx),
         "C16" => c16::check(ctx),
         "C19" => c19::check(ctx),
